@@ -3,7 +3,7 @@ import os
 from vlib import *
 
 P = 4096
-GUARDED = ["g_write", "g_read", "g_write_obj", "g_read_obj", "g_read_from", "g_write_to", "s_ref_store", "s_ref_load",
+GUARDED = ["g_write", "g_read", "g_write_obj", "g_read_obj", "g_read_from", "g_write_to", "g_read_from_fd", "g_write_to_fd", "s_ref_store", "s_ref_load",
            "s_arr_copy_from", "s_arr_copy_to", "s_arr_store", "s_arr_load", "s_copy_from_u8", "s_copy_to_u8", "ptr_guard"]
 UNGUARDED = ["g_store", "g_load", "s_get_atomic_ref", "s_aligned_as_ref", "s_copy_to_volatile_slice", "s_arr_copy_to_volatile_slice"]
 
@@ -33,9 +33,9 @@ def rnd_op(rnd, base, size, zero):
     if op == "g_read_obj":
         e = rnd.choice([1, 2, 3, 4, 8, 16] + ([0] if zero else []))
         return op, {"addr": base + off(e), "esz": e}
-    if op == "g_read_from":
+    if op in ("g_read_from", "g_read_from_fd"):
         return op, {"addr": base + off(), "src": buf(rnd.choice([0, 1, 5, 9, 40])), "count": ln}
-    if op == "g_write_to":
+    if op in ("g_write_to", "g_write_to_fd"):
         return op, {"addr": base + off(), "count": ln}
     if op in ("g_store",):
         e = rnd.choice([1, 2, 4, 8])
@@ -141,6 +141,9 @@ def xctor(ctx):
                         for foff in foffs:
                             for api in ("builder", "from_file", "build"):
                                 prog.append({"op": "build", "a": {"kind": kind, "api": api, "size": size, "flen": flen, "foff": foff, "fixed": fixed, "misalign": 0}})
+                            for huge in (True, False):      # the builder's hugetlbfs hint: same decisions, hint reported back
+                                prog.append({"op": "build", "a": {"kind": kind, "api": "builder", "size": size, "flen": flen, "foff": foff, "fixed": fixed,
+                                                                  "misalign": 0, "huge": huge}})
     # giving a mapping its guest range: bases around 2^64 - size (both builds)
     wraps = []
     for size in (1, 4095, 4096, 4097, 8192):
